@@ -101,10 +101,55 @@ def write_epw(src, dst, depths, props='blank', other=None):
     open(dst, 'w').write('\n'.join(lines))
 
 
+SOIL_K, SOIL_C = 1, 2000000      # the documented soil: 1 W/m-K (Figley & Snodgrass), 2e6 J/m3-K (uwg.py, class constants)
+
+
+def column_composition_msg(el, pavement, kroad, croad, tol=0):
+    """The padded column slice by slice: the top `pavement` metres are the pavement material (kroad, croad) in
+    every view the Element offers (layerThermalCond / layerVolHeat and the Material objects of material_lst), and
+    EVERY slice below is soil in every property: 5 cm thick, conductivity 1 W/m-K, volumetric heat capacity
+    2e6 J/m3-K, Material named 'soil'.  Returns (message or None, number of soil slices)."""
+    th, ks, cs = list(el.layer_thickness_lst), list(el.layerThermalCond), list(el.layerVolHeat)
+    mats = list(el.material_lst)
+    if not (len(th) == len(ks) == len(cs) == len(mats)):
+        return 'layer lists of %s have different lengths (%d thicknesses, %d conductivities, %d capacities, %d ' \
+               'materials)' % (el.name, len(th), len(ks), len(cs), len(mats)), 0
+    acc, i = 0, 0
+    while i < len(th) and acc < pavement - tol:
+        for what, got, want in (('conductivity', ks[i], kroad), ('heat capacity', cs[i], croad),
+                                ('Material.thermalcond', mats[i].thermalcond, kroad),
+                                ('Material.volheat', mats[i].volheat, croad)):
+            if got != want:
+                return 'slice %d of %s (pavement, %s..%s m): %s %s, the pavement has %s' % (
+                    i, el.name, float(acc), float(acc + th[i]), what, float(got), float(want)), 0
+        acc += th[i]
+        i += 1
+    if abs(acc - pavement) > tol:
+        return 'the pavement part of %s ends at %s m, the refined pavement is %s m' % (
+            el.name, float(acc), float(pavement)), 0
+    nsoil = len(th) - i
+    for j in range(i, len(th)):
+        for what, got, want in (('conductivity', ks[j], SOIL_K), ('heat capacity', cs[j], SOIL_C),
+                                ('Material.thermalcond', mats[j].thermalcond, SOIL_K),
+                                ('Material.volheat', mats[j].volheat, SOIL_C)):
+            if got != want:
+                r_got = sum(float(t) / float(k) for t, k in zip(th, ks))
+                r_want = float(pavement) / float(kroad) + float(sum(th[i:])) / SOIL_K
+                return ('slice %d of %s lies below the %s m pavement, so it is padding, but it is not soil: %s %s '
+                        'instead of %s (column resistance %.4f m2K/W instead of %.4f)' % (
+                            j, el.name, float(pavement), what, float(got), want, r_got, r_want)), nsoil
+        if abs(th[j] - F(1, 20)) > tol:
+            return 'padding slice %d of %s is %s m thick, not 0.05' % (j, el.name, float(th[j])), nsoil
+        if getattr(mats[j], 'name', None) != 'soil':
+            return 'padding slice %d of %s is made of %r, not of soil' % (j, el.name, getattr(mats[j], 'name', None)), nsoil
+    return None, nsoil
+
+
 def run(chk):
-    chk.proof(MODULE, THEOREMS)
+    from props import epwheader
+    chk.proof(MODULE, THEOREMS + epwheader.GROUND_THEOREMS, extra_modules=[epwheader.MODULE])
     if chk.tier == 'thorough':
-        chk.leanchecker([MODULE])
+        chk.leanchecker([MODULE, epwheader.MODULE])
     pkg = fracexec.load()
     rng = chk.rng
     repo = core.REPO
@@ -154,6 +199,7 @@ def run(chk):
     work = chk.work()
     ncol = 12 if chk.tier == 'quick' else 80
     cases2, bad2 = [], 0
+    comp, badc, refused_deep = {}, [0], [0]
     ucm_state = {'padded': 0, 'unpadded': 0, 'unpadded-but-equal': 0, 'other': 0}
     hdr_modes = {}
     depth_sets = [[F('0.5'), F(2), F(4)], [F('0.5')], [F('0.2'), F('1.0')], [F('0.1'), F('0.33'), F('0.7'), F('1.5')],
@@ -163,7 +209,10 @@ def run(chk):
             sorted(rq(rng, 0.05, 3, 100) for _ in range(rng.choice([1, 2, 3, 4])))
         droad = rng.choice([F('0.5'), F('0.35'), F('0.05'), F('0.04'), F('0.12'), F('1.0'), F('0.2'),
                             rq(rng, 0.02, 2.5, 100)])
-        kroad, croad = rq(rng, 0.5, 2, 10), rq(rng, 1000000, 2000000, 1)
+        # pavement material: anything legal, on both sides of the soil values (1 W/m-K, 2e6 J/m3-K), and - as in
+        # every shipped file - coinciding with one or both of them
+        kroad = [rq(rng, 0.5, 0.9, 10), rq(rng, 1.1, 3, 10), F(1), rq(rng, 0.05, 5, 100)][i % 4]
+        croad = [rq(rng, 1000000, 1990000, 1), F(2000000), rq(rng, 2010000, 3500000, 1)][(i // 4) % 3]
         epw = os.path.join(work, 'g%d.epw' % i)
         pmode = ['blank', 'filled', 'partly'][i % 3]
         other = [None, None, 'leapflag-Yes+dst-3/8-11/1', 'comments+weekday-Tuesday'][(i // 3) % 4]
@@ -185,10 +234,20 @@ def run(chk):
                             ' idx=' + ('unset' if idx is None else str(idx)))
         except IndexError:
             outs = ['err index', 'err index']
-        except Exception as e:  # noqa
+        except Exception as e:
+            # fail-stop of generate(): with three or more ground records a pavement below the deepest one is refused
+            # (outside the property's domain "every pavement thickness up to the deepest ground-temperature depth").
+            # Accepted as such only if really no record lies at or below the refined pavement.
+            pav_r = max(-(-droad // F(1, 20)), 1) * F(1, 20)
             if 'deeper than the deepest ground temperature depth' not in str(e):
                 raise
-            outs = ['err refused', 'err refused']       # generate() refuses: neither column exists
+            outs = ['err refused', 'err refused']       # generate() refuses: neither column exists (model: columnOutcome)
+            if len(depths) >= 3 and all(dd < pav_r for dd in depths):
+                refused_deep[0] += 1
+            else:
+                chk.violation('impl-violation', 'generate() refuses a pavement that is not below the deepest '
+                              'ground-temperature depth', case={'droad': str(droad), 'depths': [str(x) for x in depths]},
+                              observed=str(e), expected='columns padded to the first depth at or below the pavement')
         # the column the canyon model really simulates
         if outs[0].startswith('ok'):
             ucm_road = m.UCM.road
@@ -219,12 +278,33 @@ def run(chk):
                           observed={'nSoil': getattr(m, 'nSoil', None), 'depth_soil': [str(x) for x in got_d],
                                     'Tsoil[0]': [str(x) for x in (m.Tsoil[0] if m.Tsoil else [])]},
                           expected={'depths': [str(x) for x in depths], 'Tsoil[0]': [str(x) for x in want_T[0]]})
+        # the column slice by slice: pavement material on top, soil - in every property - below
+        if outs[0].startswith('ok'):
+            n0_ = -(-droad // F(1, 20))
+            pav_ = max(n0_, 1) * F(1, 20)          # the pavement is built from whole 5 cm layers
+            for el in (m.road, m.rural):
+                msg, nsoil = column_composition_msg(el, pav_, kroad, croad)
+                tag = ('padded' if nsoil else 'no-padding') + ('/kroad=soil' if kroad == SOIL_K else '/kroad!=soil') + \
+                    ('/croad=soil' if croad == SOIL_C else '/croad!=soil')
+                comp[tag] = comp.get(tag, 0) + 1
+                if msg:
+                    badc[0] += 1
+                    if badc[0] <= 3:
+                        chk.violation('impl-violation', 'column composition oracle (padding is soil in every property) '
+                                      'on generate(), exact',
+                                      case={'droad': str(droad), 'kroad': str(kroad), 'croad': str(croad),
+                                            'depths': [str(x) for x in depths], 'element': el.name},
+                                      observed=msg,
+                                      expected='pavement (kroad, croad) down to the refined pavement thickness, then 5 cm '
+                                               'slices of soil: k = 1 W/m-K, c = 2e6 J/m3-K, Material "soil"')
         # oracle T3/T4 + Tsoil on the implementation
         if outs[0].startswith('ok') and getattr(m, '_soilindex1', None) is not None:
             idx = m._soilindex1
             tot = sum(m.road.layer_thickness_lst)
             n0 = -(-droad // F(1, 20))
-            col = max(n0 * F(1, 20), F(0)) if n0 > 1 else droad   # single thin layer is halved, total kept
+            # the pavement is built from ceil(droad / 0.05) WHOLE 5 cm layers (a single one is halved by _procmat,
+            # total kept): for droad < 0.05 the refined pavement is 0.05 m, not droad
+            col = max(n0, 1) * F(1, 20)
             first = next((j for j, dd in enumerate(depths) if dd >= col), None)
             okk = (first == idx and depths[idx] <= tot < depths[idx] + F(1, 20) and
                    all(m.Tsoil[idx][mm] == F('%.1f' % (20 + idx + 0.5 * mm)) + F('273.15') for mm in range(12)))
@@ -242,11 +322,22 @@ def run(chk):
                         'headers (1-4 depths, unsorted too; the optional soil conductivity / density / specific-heat '
                         'cells of every depth blank, all filled, or partly filled, in rotation; for half of the files '
                         'other header cells varied as well) x pavement thickness (incl. deeper than the deepest '
-                        'depth: index unset): road and rural layer lists and soil index vs Lean groundColumn, exact '
+                        'depth: index unset with one or two ground records, refused - `err refused` on both sides - with '
+                        'three or more): road and rural layer lists and soil index vs Lean columnOutcome, exact '
                         '(the model takes the depths only: the optional cells are no input)',
                    classify=lambda l, a: 'unset' if 'idx=unset' in a else 'err' if a.startswith('err') else 'padded')
 
+    chk.direct('column-composition-oracle(generate, exact)', sum(comp.values()), sum(comp.values()),
+               'road and rural columns after the fractionised generate(), slice by slice: the refined pavement carries '
+               '(kroad, croad) in layerThermalCond / layerVolHeat and in its Material objects; every slice below it is '
+               'soil in every property (0.05 m, k = 1 W/m-K, c = 2e6 J/m3-K, Material "soil"). Pavement materials on '
+               'both sides of the soil values and coinciding with them (kroad = 1 as in every shipped file; croad = '
+               '2e6), pavements that need padding and pavements that end on a ground-temperature depth',
+               mismatches=badc[0], branches=comp)
+    if chk.tier == 'quick' and (comp.get('padded/kroad!=soil/croad!=soil', 0) < 4):
+        raise core.Infra('column generator no longer builds padded columns with kroad != 1: %s' % comp)
     chk.measurements['column_simulated_by_canyon_model'] = ucm_state
+    chk.measurements['pavements_refused_as_deeper_than_the_deepest_of_3+_ground_records'] = refused_deep[0]
     chk.extra_cov['ground_header_modes'] = hdr_modes
     if ucm_state['unpadded'] and not ucm_state['other'] and not chk.broken() and not chk.violations:
         for kf in chk.known_findings():
@@ -327,17 +418,34 @@ def run(chk):
     grid = [0.05 * k for k in range(1, 81)] if chk.tier == 'thorough' else \
         [0.05, 0.1, 0.15, 0.25, 0.3, 0.35, 0.5, 0.55, 0.75, 1.0, 1.5, 2.0, 2.05, 2.5, 3.0, 3.85, 3.9, 4.0]
     depths_f = S.ground_of(sgp_rows)[0]
-    bad4 = 0
+    bad4, bad5, compf = 0, 0, {}
     filled = S.save_epw(S.apply_variant(sgp_rows, 'ground-props-filled'), os.path.join(work, 'pad_filled.epw'))
     for gi, droad in enumerate(grid):
         # every third grid point on the copy whose soil-property cells are filled in (same depths)
         m = realuwg.UWG.from_param_file(os.path.join(repo, PARAM),
                                         epw_path=filled if gi % 3 == 1 else os.path.join(repo, EPW))
         m.nday, m.droad = 1, droad
+        kroad_f = [1.8, 1.0, 0.6, 2.5, 0.25][gi % 5]
+        croad_f = [1.6e6, 2.4e6, 2e6][(gi // 2) % 3]
+        m.kroad, m.croad = kroad_f, croad_f
         with core.quiet():
             m.generate()
         for el, idxname in ((m.road, '_soilindex1'), (m.rural, '_soilindex2')):
             pavement = 0.05 * int(math.ceil(droad / 0.05)) if droad > 0.05 else droad
+            msg, nsoil = column_composition_msg(el, 0.05 * max(int(math.ceil(droad / 0.05)), 1), kroad_f, croad_f,
+                                                tol=1e-9)
+            tagf = ('padded' if nsoil else 'no-padding') + ('/kroad=1' if kroad_f == 1.0 else '/kroad!=1')
+            compf[tagf] = compf.get(tagf, 0) + 1
+            if msg:
+                bad5 += 1
+                if bad5 <= 2:
+                    chk.violation('impl-violation', 'column composition oracle (padding is soil in every property) on '
+                                  'the real float generate()',
+                                  case={'droad': droad, 'kroad': kroad_f, 'croad': croad_f, 'element': el.name,
+                                        'rural file': 'shipped Singapore file (ground depths %s)' % depths_f},
+                                  observed=msg,
+                                  expected='pavement (kroad, croad), then 5 cm slices of soil: k = 1 W/m-K, '
+                                           'c = 2e6 J/m3-K, Material "soil"')
             idx = getattr(m, idxname)
             want_idx = next((i for i, d in enumerate(depths_f) if d > pavement - 1e-9), None)
             tot = sum(el.layer_thickness_lst)
@@ -360,5 +468,11 @@ def run(chk):
                'the first ground-temperature depth at or below the pavement (exactly, to 1e-9, when the gap is a whole '
                'number of 5 cm layers); every third grid point on a copy of the file whose soil-property cells are '
                'filled in', mismatches=bad4)
+    chk.direct('column-composition-oracle(real float generate)', sum(compf.values()), sum(compf.values()),
+               'the same grid with kroad cycling through 1.8 / 1.0 / 0.6 / 2.5 / 0.25 W/m-K and croad through 1.6e6 / '
+               '2.4e6 / 2e6 J/m3-K: slice by slice the pavement carries (kroad, croad) and everything below it is soil '
+               'in every property (k = 1, c = 2e6, 0.05 m, Material "soil")', mismatches=bad5, branches=compf)
     chk.assumptions.append('float effects in ceil(droad/0.05) and depth > sum(thickness) are outside the exact '
                            'model (e.g. droad=0.35 gives 8 pavement layers in doubles, 7 exactly)')
+    # the ground-temperature line itself: the real _read_epw vs the Lean reader, for every number of depths
+    epwheader.run_header(chk, 'ground')
